@@ -15,6 +15,9 @@ type BasicPrivateIssuer struct {
 }
 
 func NewBasicPrivateIssuer(key *oprf.PrivateKey) *BasicPrivateIssuer {
+	// PrivateKey.Public() fills in the public part lazily and without synchronisation;
+	// do it once here, before the issuer can be shared between goroutines.
+	key.Public()
 	return &BasicPrivateIssuer{
 		tokenKey: key,
 	}
